@@ -173,6 +173,9 @@ SEnd(m, e) ==
 SStep(m, e) ==
   CASE e.e = "A" -> SApi(IF e.op \in {"sig_reg", "sig_unreg"} THEN [m EXCEPT !.sigBusy = @ \ {e.t}] ELSE m, e)
     [] e.e = "SigApiB" -> [m EXCEPT !.sigBusy = @ \cup {e.t}]
+    (* SIGCHLD goes back to its default disposition (the last wait interest of the process is on its way
+       out, whichever thread's call returns first): what was not reaped by then is no longer owed *)
+    [] e.e = "Disp" -> IF e.sig = 17 /\ e.h = "dfl" THEN [m EXCEPT !.termOwed = {}] ELSE m
     [] e.e = "SigDlv" -> SigDeliver(m, e)
     [] e.e = "SigRet" -> [m EXCEPT !.inflight[e.t] = {}]
     [] e.e = "DispNow" -> DispCheck(m, e)
